@@ -1,17 +1,26 @@
 """Property id -> how it is decided."""
 import json, os, subprocess, sys
 from common import *
-import runner, p_ops
+import runner, p_ops, p_proto
 
 ASSUME_OPS = [
     "pointer width 64 is the executed DedupCast instance; 16/32-bit rows are proved for the generic dedup width only",
     "rustc's semantics of `as`, shifts and integer ops agree with BitVec (validated by the differential run)",
 ]
 
+ASSUME_PROTO = [
+    "rustc's lowering of `async fn` to a state machine, the executor/waker contract and future cancellation are outside the model; "
+    "the poll machine of DDV.Proto.Prog is validated against the real futures by poll counts and call logs",
+    "the FieldSet types used by the harness are hand-written (generated ones are exercised by the probe crates of C04/C08)",
+    "interface behaviour is an arbitrary script of per-call answers; the mock applies it the same way on both sides",
+]
+
 def run(prop, tier):
     if prop in ("C01", "C02", "C03"):
         targets = {"C01": ["DDV.Props.C01"], "C02": ["DDV.Props.C02"], "C03": ["DDV.Props.C03"]}[prop]
         return runner.decide(prop, tier, targets, p_ops.correspond_ops(prop), ASSUME_OPS)
+    if prop in ("C05", "C09", "C10"):
+        return runner.decide(prop, tier, ["DDV.Props." + prop], p_proto.correspond_proto(prop), ASSUME_PROTO)
     print(f"unknown property {prop}")
     return 2
 
@@ -20,7 +29,8 @@ def replay(prop, path):
     print(json.dumps(payload, indent=1)[:4000])
     fi = payload.get("failing_input") or {}
     case = fi.get("case")
-    if case and prop in ("C01", "C02", "C03"):
-        r = subprocess.run([DRIVER, "ops"], input=case + "\n", capture_output=True, text=True)
+    mode = "ops" if prop in ("C01", "C02", "C03") else "proto" if prop in ("C05", "C09", "C10") else None
+    if case and mode:
+        r = subprocess.run([DRIVER, mode], input=case + "\n", capture_output=True, text=True)
         print("model/spec now:", r.stdout.strip())
     return 0
